@@ -18,7 +18,7 @@ type Schema struct {
 
 	pattern       string
 	compileOnce   sync.ErrOnce
-	generatorOnce sync.ErrOnceWithValue[*reggen.Generator]
+	exampleOnce   sync.ErrOnceWithValue[[]byte]
 	generatorSeed int64
 }
 
@@ -75,20 +75,25 @@ func (s *Schema) Example() ([]byte, error) {
 	return s.generateExample()
 }
 
+// generateExample generates the example only once: it is a function of the
+// pattern and the seed, so every call gives the same bytes. The generator isn't
+// safe for concurrent use and changes its state on every generation, that's why
+// it doesn't outlive the generation.
 func (s *Schema) generateExample() ([]byte, error) {
-	g, err := s.generatorOnce.Do(func() (*reggen.Generator, error) {
+	example, err := s.exampleOnce.Do(func() ([]byte, error) {
 		g, err := reggen.NewGenerator(s.pattern)
 		if err != nil {
 			return nil, err
 		}
 		g.SetSeed(s.generatorSeed)
-		return g, nil
+		return []byte(g.Generate(1)), nil
 	})
 	if err != nil {
 		return nil, err
 	}
 
-	return []byte(g.Generate(1)), nil
+	// Return a copy, the caller is free to change it.
+	return append(make([]byte, 0, len(example)), example...), nil
 }
 
 func (*Schema) AddType(string, jschema.Schema) error {
